@@ -121,7 +121,7 @@ func (e *Env) Expired() bool {
 	return false
 }
 
-func (e *Env) Capped()               { e.res.Capped = true }
+func (e *Env) Capped()                { e.res.Capped = true }
 func (e *Env) Count(name string)      { e.res.Counters[name]++ }
 func (e *Env) Add(name string, n int) { e.res.Counters[name] += int64(n) }
 func (e *Env) Note(format string, a ...any) {
